@@ -185,6 +185,11 @@ class UnionNode(XmlNode):
         if obj:
             objects.append((self.var.qname, obj))
 
+            if self.meta.mixed_content:
+                tail = ParserUtils.normalize_content(tail)
+                if tail:
+                    objects.append((None, tail))
+
             return True
 
         raise ParserError(f"Failed to parse union node: {self.var.qname}")
